@@ -1,0 +1,113 @@
+//go:build verif
+
+package router
+
+import (
+	"encoding/json"
+	"net/http"
+	"net/http/httptest"
+	"path"
+	"sort"
+	"strings"
+	"testing"
+
+	"github.com/gotid/god/api/pathvar"
+	"github.com/gotid/god/internal/verifdrv"
+)
+
+type verifReg struct {
+	M string `json:"m"`
+	P string `json:"p"`
+}
+
+type verifCase struct {
+	Kind string     `json:"kind"`
+	NF   bool       `json:"nf"` // install a custom not-found handler
+	Regs []verifReg `json:"regs"`
+	Reqs []verifReg `json:"reqs"`
+}
+
+type verifRes struct {
+	Clean  string      `json:"clean"`
+	Status int         `json:"status"`
+	Hids   []int       `json:"hids"`
+	Vars   [][2]string `json:"vars"`
+	Allow  []string    `json:"allow"`
+	NF     int         `json:"nf"`
+}
+
+func verifErr(err error) string {
+	switch {
+	case err == nil:
+		return ""
+	case err == ErrInvalidMethod:
+		return "method"
+	case err == ErrInvalidPath:
+		return "path"
+	case strings.HasPrefix(err.Error(), "重复的路由条目"):
+		return "dup"
+	case strings.HasPrefix(err.Error(), "重复的斜线"):
+		return "dupslash"
+	case strings.HasPrefix(err.Error(), "路径必须以 / 开始"):
+		return "notfromroot"
+	default:
+		return "other:" + err.Error()
+	}
+}
+
+// TestVerifDriver registers the route table of every case on a fresh NewRouter() (handler i records
+// its index and pathvar.Vars), fires the requests and reports what the router did.
+func TestVerifDriver(t *testing.T) {
+	verifdrv.Run(t, func(raw json.RawMessage) any {
+		var c verifCase
+		if err := json.Unmarshal(raw, &c); err != nil {
+			return map[string]any{"error": err.Error()}
+		}
+		rt := NewRouter()
+		var hids []int
+		var vars map[string]string
+		nf := 0
+		if c.NF {
+			rt.SetNotFoundHandler(http.HandlerFunc(func(w http.ResponseWriter, r *http.Request) {
+				nf++
+				w.WriteHeader(http.StatusNotFound)
+			}))
+		}
+		errs := make([]string, len(c.Regs))
+		rclean := make([]string, len(c.Regs))
+		for i, reg := range c.Regs {
+			id := i
+			errs[i] = verifErr(rt.Handle(reg.M, reg.P, http.HandlerFunc(func(w http.ResponseWriter, r *http.Request) {
+				hids = append(hids, id)
+				vars = pathvar.Vars(r)
+			})))
+			rclean[i] = path.Clean(reg.P)
+		}
+		res := make([]verifRes, len(c.Reqs))
+		for i, rq := range c.Reqs {
+			hids, vars, nf = nil, nil, 0
+			r := httptest.NewRequest(http.MethodGet, "/", nil)
+			r.Method = rq.M
+			r.URL.Path = rq.P
+			rec := httptest.NewRecorder()
+			status := rec.Code
+			if panicked, _ := verifdrv.Catch(func() { rt.ServeHTTP(rec, r) }); panicked {
+				status = 0 // ServeHTTP panicked
+			} else {
+				status = rec.Code
+			}
+			o := verifRes{Clean: path.Clean(rq.P), Status: status, Hids: append([]int{}, hids...), NF: nf,
+				Vars: [][2]string{}, Allow: []string{}}
+			for k, v := range vars {
+				o.Vars = append(o.Vars, [2]string{k, v})
+			}
+			sort.Slice(o.Vars, func(a, b int) bool { return o.Vars[a][0] < o.Vars[b][0] })
+			for _, h := range rec.Header().Values(allowHeader) {
+				o.Allow = append(o.Allow, strings.Split(h, ", ")...)
+			}
+			sort.Strings(o.Allow)
+			res[i] = o
+		}
+		return map[string]any{"errs": errs, "rclean": rclean, "res": res}
+	})
+}
